@@ -88,14 +88,16 @@ impl Template {
                                     declare_shortcut!("M", "R.m");
                                     declare_shortcut!("O", "R.r");
                                     w.set_var_on_top_scope_init("A", |w| {
-                                        write!(w, "{{")?;
+                                        // (no prototype, computed keys: the runtime asks `map[field]` for any field
+                                        // name, `constructor` and `__proto__` included)
+                                        write!(w, "Object.assign(Object.create(null),{{")?;
                                         for (index, (key, size)) in bmc.list_fields().enumerate() {
                                             if index > 0 {
                                                 write!(w, ",")?;
                                             }
-                                            write!(w, "{}:new Array({})", gen_lit_str(key), size)?;
+                                            write!(w, "[{}]:new Array({})", gen_lit_str(key), size)?;
                                         }
-                                        write!(w, "}}")?;
+                                        write!(w, "}})")?;
                                         Ok(())
                                     })?;
                                     declare_shortcut!("K", "U===true");
